@@ -417,3 +417,31 @@ func VerifC02_SoftReconnect() {
 	}
 	verifClientScenario(true, 2+sym.Tier(), 1, 1, maxAge)
 }
+
+// VerifC02_FullAckWindow: the client scenario with an ACK window of zero (the
+// hand-off to the acknowledger is a rendezvous): the second chunk is written
+// to the wire and then waits at the hand-off while the acknowledger is still
+// reading the first ACK - the state in which a failing or hung ACK read, or the
+// stop request, must not let the waiting chunk fall between sender and acknowledger.
+//
+//verif:preempt 0
+//verif:timers 30
+//verif:clock virtual
+//verif:native off
+//verif:delays 2
+//verif:thorough delays 3
+//verif:reach stopped delivered handed-back reconnected
+//verif:paths 400000
+func VerifC02_FullAckWindow() { verifClientScenario(true, 2+sym.Tier(), 2, 0, 0) }
+
+// VerifC01_ClientCustodyFullAckWindow: the same run read as link L5 of the custody chain.
+//
+//verif:preempt 0
+//verif:timers 30
+//verif:clock virtual
+//verif:native off
+//verif:delays 2
+//verif:thorough delays 3
+//verif:reach stopped delivered handed-back reconnected
+//verif:paths 400000
+func VerifC01_ClientCustodyFullAckWindow() { verifClientScenario(true, 2+sym.Tier(), 2, 0, 0) }
